@@ -68,6 +68,10 @@ def templates(rng):
           ("array-of-arrays", lambda m, x: m.array([x, w3]), v3),
           ("array-scalar", lambda m, x: m.array(x[0]), v3),
           ("select", lambda m, x: m.select([x > 0, x < 0], [x, -x * 2], default=7.0), v3),
+          ("select-overlapping", lambda m, x: m.select([x > -10.0, x > 0.0, x > 1.0], [x, x * 2.0, x * 3.0], default=7.0), v3),
+          ("select-overlapping-reversed", lambda m, x: m.select([x > 1.0, x > 0.0, x > -10.0], [x * 3.0, x * 2.0, x], default=7.0), v3),
+          ("select-all-false", lambda m, x: m.select([x > 100.0, x < -100.0], [x, -x], default=7.0), v3),
+          ("piecewise-like where chain", lambda m, x: m.where(x > 1.0, x * 3.0, m.where(x > 0.0, x * 2.0, x)), v3),
           ("r_", lambda m, x: m.r_[x, 1.0, w3], v3),
           ("c_", lambda m, x: m.c_[x, w3], v3),
           ("reshape-method", lambda m, x: x.reshape(-1), a2),
